@@ -20,7 +20,7 @@ TRUSTED_BASE = [
 
 PROPS = {
     "C01": dict(
-        level_text='PARTIAL at the proof level so far: proved (closed) — every token the redraw emitters produce re-parses to exactly the intended vte actions from any ground parser state (EmitTokens/ParseSer: reachable_tokens_ok), the emitters never panic (EmitSafe), the invariants the row painter relies on hold in every reachable state (screen_ok, screen_wf, wrapped-row-last-column-occupied: Props/C01wrap), and emitters depend only on the observation (C19). The semantic round trip (row-painter invariant, DESIGN Appendix A) is being proved (Props/C01.v when present); until then it is carried by the differential correspondence of the emitted bytes plus the implementation-level oracle (fresh and dirty receivers, re-emission).',
+        level_text='FULL at scrollback offset 0, PARTIAL for scrolled views: C01_reachable_bytes (Props/C01.v) — for EVERY screen reached from Parser::new by any history of process/write/set_size/set_scrollback calls (offset 0), every fresh parser of its size processing the BYTES of state_formatted() ends with no panic, no callback event, a ground vte state and obs = obs S (all visible cells incl. wide/continuation/attributes, every wrap flag, cursor incl. the pending-wrap column, hide, pen, five input modes), and re-emits byte-identical output (C01_reachable_obs, C01_idem_strong); C01_dirty: contents_formatted alone on any receiver previously fed full redraws (canvas); supporting invariants proved for every history: cell_cap (C01_cap_invariant; C01_cap_needed shows it is necessary), last live row never flagged (C01_last_row_invariant), screen_wrapinv (C01w_*), tokens re-parse exactly (C01tok_*). Scrolled views of uniform width: C01_fresh with the bottom-row-flag exemption the property grants (same_obs_minus); views mixing row widths after a resize are outside the theorem and carried by the differential correspondence of the emitted bytes plus the oracle.',
         families=[("emit", 1200, 40000), ("stream", 600, 20000), ("sb", 300, 8000), ("cursorfix", 800, 20000), ("wrapdiff", 500, 20000)],
         projection="contents_formatted / state_formatted bytes (Emit.contents_formatted_t, state_formatted_t) and the screen state they are computed from",
     ),
@@ -90,7 +90,7 @@ PROPS = {
         projection="contents(), rows(start,width), contents_between() text",
     ),
     "C15": dict(
-        level_text='PARTIAL: window/full-row protocols are being proved with C01 (Props/C15.v when present); rows_formatted/rows_diff never panic for all windows, tokens re-parse, self-diff empty. Until the theorem lands the semantic statement is carried by correspondence of the row bytes plus the protocol oracle.',
+        level_text='PARTIAL (two of three clauses proved): C15_full_reachable_obs — the row-wise protocol (rows_formatted(0,cols) row by row, continuing unpositioned after a wrapped row, then cursor_state_formatted, attributes_formatted, input_mode_formatted) on a blank receiver of the same size reproduces obs S for every reachable screen at offset 0; C15_window / C15_window_row — for every aligned proper sub-window, drawing row i at (i,start) on rows blank from start on reproduces the cells inside the window; rows_formatted/rows_diff never panic for ALL windows (C03), tokens re-parse (C01tok), self-diff empty (C19). The rows_diff clause (window diff on a receiver showing prev) is not yet a theorem; it is carried by correspondence of the row bytes plus the protocol oracle.',
         families=[("emit", 1500, 50000), ("wrapdiff", 800, 20000), ("cursorfix", 500, 10000)],
         projection="rows_formatted / rows_diff / cursor_state_formatted / attributes_formatted bytes",
     ),
